@@ -73,7 +73,7 @@ FALLTHROUGH = {
 FLATTEN_CONFLICTS = {
     "rename": r"is_some\(self\.attr_name\)=True",
     "with": r"is_some\(self\.with\)=True",
-    "skip": r"unwrap_or_default\(.*self\.skip.*\)=True",
+    "skip": [[r"unwrap_or_default\(.*self\.skip.*\)=True"], [r"^is_some\(self\.skip\)=True$", r"^\(self\.skip as Some\)\.0(\.value)?=True$"]],
     "multiple": r"self\.multiple.*=True",
 }
 CTOR_RX = r"^darling_core::error::Error::(custom|duplicate_field|duplicate_field_path|unknown_field_path|unknown_field_path_with_alts|unknown_field)$"
@@ -97,6 +97,27 @@ def errors_of(ctx, f):
             if me in a0 or (dest is not None and root == dest):
                 sp = a1
         out.append((blk, mir.callee_of(t).rsplit("::", 1)[-1], ctx.expr(f, t["args"][0]) if t["args"] else "", sp))
+    # an error built by a private helper of the crate (`fn conflict(option, mi) -> Error { Error::custom(..).with_span(mi) }`)
+    # counts at its call site, with the constructor and the span argument the helper uses
+    for blk, t in f.calls():
+        name = mir.callee_of(t)
+        lst = ctx.bodies(f.crate).get(name) if name else None
+        if not lst or lst[0].kind not in ("Fn", "AssocFn") or not str(lst[0].raw.get("vis", "")).startswith("Restricted") or lst[0].local_ty(0) != "darling_core::error::Error":
+            continue
+        h = lst[0]
+        inner = errors_of(ctx, h) if h.key != f.key else []
+        if len(inner) != 1:
+            continue
+        _, ctor, a0, sp = inner[0]
+        # translate the helper's span argument (one of its parameters) to the caller's argument
+        sp2 = None
+        if sp is not None:
+            m = re.match(r"^a(\d+)$", sp)
+            if m and int(m.group(1)) - 1 < len(t["args"]):
+                sp2 = ctx.expr(f, t["args"][int(m.group(1)) - 1])
+            elif sp == "self":
+                sp2 = ctx.expr(f, t["args"][0])
+        out.append((blk, ctor, a0, sp2))
     return out
 
 
@@ -158,7 +179,8 @@ def run(ctx):
         errs = errors_of(ctx, f)
         for name, set_atom in FLATTEN_CONFLICTS.items():
             a = [e for e in errs if e[1] == "custom" and any(ctx._sat(d, opt_atom(name, "True")) and ctx._sat(d, r"is_some\(self\.flatten\.0\)=True") for d in ctx.pc_strs(f, e[0]))]
-            b = [e for e in errs if e[1] == "custom" and any(ctx._sat(d, opt_atom("flatten", "True")) and ctx._sat(d, set_atom) for d in ctx.pc_strs(f, e[0]))]
+            alts_ = set_atom if isinstance(set_atom, list) else [[set_atom]]
+            b = [e for e in errs if e[1] == "custom" and any(ctx._sat(d, opt_atom("flatten", "True")) and any(all(ctx._sat(d, x) for x in alt_) for alt_ in alts_) for d in ctx.pc_strs(f, e[0]))]
             ctx.ob("C10.G.conflict-both-orders", f.key, "flatten x %s (in the `%s` branch)" % (name, name), len(a) == 1, "%d guarded errors" % len(a))
             ctx.ob("C10.G.conflict-both-orders", f.key, "flatten x %s (in the `flatten` branch)" % name, len(b) == 1, "%d guarded errors" % len(b))
             for e in a + b:
